@@ -49,11 +49,11 @@ def jobs(tier):
                                               gname=g, cls=cls)))
     for g in ("toy11", "I1024", "Ed25519"):
         js.append(("job_matrix", dict(_name="session matrix on the plain package: %s (ground)" % g, gname=g)))
-    chunks = [scheds3[i::6] for i in range(6)]
+    chunks = [scheds3[i::18] for i in range(18)]
     for i, ch in enumerate(chunks):
-        if tier == "quick" and i > 0:
+        if tier == "quick" and i > 2:
             continue
-        js.append(("job_interleave", dict(_name="3 sessions ABS shared_params=1: schedules %d/6 (%d)" % (i + 1, len(ch)),
+        js.append(("job_interleave", dict(_name="3 sessions ABS shared_params=1: schedules %d/18 (%d)" % (i + 1, len(ch)),
                                           roles=list("ABS"), shared=1, ops=2, scheds=ch)))
     return js
 
@@ -382,7 +382,7 @@ def job_interleave(J, roles, shared, ops, scheds):
             mixed = run(list(sched))
             ctx.data["w"] = dict(iso=iso, mixed=mixed)
             return True
-        for r in J.explore(h, max_paths=64):
+        for r in J.explore(h, max_paths=400):
             if r.kind != "ret":
                 J.claim(r, "schedule %s runs (%s)" % (sched, type(r.value).__name__), False,
                         cex=lambda m, sched=sched: dict(cls=roles[0], roles=roles, shared=shared, sched=list(sched), ops=ops), oracle="interleave", sample=False)
